@@ -73,6 +73,10 @@ class Inputs:
             add('<?xml version="1.0" encoding="UTF-8"?>\n<model xmlns="http://www.cellml.org/cellml/2.0#" xmlns:cellml="http://www.cellml.org/cellml/2.0#" name="eq">\n'
                 '  <component name="c">\n    <variable name="x" units="dimensionless"/>\n    <variable name="y" units="dimensionless" initial_value="1"/>\n'
                 '    <math xmlns="http://www.w3.org/1998/Math/MathML">\n      <apply><eq/><ci>x</ci>%s</apply>\n    </math>\n  </component>\n</model>\n' % rhs, 'system', analysable=True)
+        # a model whose import names a file that does not exist (resolution fails and leaves an error in the importer)
+        self.bad = os.path.join(wd, 'badworld'); os.makedirs(self.bad, exist_ok=True)
+        open(os.path.join(self.bad, 'origin.cellml'), 'w').write('<?xml version="1.0" encoding="UTF-8"?>\n<model xmlns="http://www.cellml.org/cellml/2.0#" xmlns:xlink="http://www.w3.org/1999/xlink" name="bad">'
+                                                                 '<import xlink:href="nowhere.cellml"><component component_ref="c" name="c"/></import></model>\n')
         self.worlds = []
         for i in range(max(2, n // 3)):
             md = MO.gen(rng)
@@ -119,6 +123,11 @@ def run(chk, replay=None):
                         'flatten %d %d %d' % (slots['importer'], mslot, mslot + 1)], ['p1', 'a1', 'o'], 3
             if kind == 'analysenull':
                 return ['analysenull %d' % slots['analyser']], ['o'], 0
+            if kind == 'resolvebad':
+                return ['parse %d %d %s/origin.cellml' % (slots['parser'], mslot, inp.bad), 'resolve %d %d %s/' % (slots['importer'], mslot, inp.bad)], ['p0', 'o'], 1
+            if kind == 'resolveplain':
+                # an import-free document resolved with whatever the importer has been through: the call starts from an empty issue list
+                return ['parse %d %d %s' % (slots['parserp' if d['permissive'] else 'parser'], mslot, d['file']), 'resolve %d %d %s/' % (slots['importer'], mslot, wd)], ['p1' if d['math'] else 'p0', 'o'], 1
             if shared is not None and i in shared:
                 pre, sym, mslot = [], [], shared[i]
             else:
@@ -146,10 +155,10 @@ def run(chk, replay=None):
                 return pre + ['analysex %d %d %s %s' % (slots['analyser'], mslot, cv[0], cv[1]), 'generate %d %d %s' % (slots['generator'], slots['analyser'], 'C')], sym + ['a1' if d['math'] else 'a0', 'o'], n0 + 1
             raise ValueError(kind)
         def random_step():
-            kind = rng.choice(['parse', 'parse', 'parsep', 'print', 'print', 'validate', 'validate', 'analyse', 'analyse', 'generate', 'generate', 'generatex', 'generatex', 'flatten', 'eqcode', 'eqcode', 'eqcodepy', 'analysenull'])
+            kind = rng.choice(['parse', 'parse', 'parsep', 'print', 'print', 'validate', 'validate', 'analyse', 'analyse', 'generate', 'generate', 'generatex', 'generatex', 'flatten', 'eqcode', 'eqcode', 'eqcodepy', 'analysenull', 'resolvebad', 'resolveplain'])
             if kind == 'flatten':
                 return kind, rng.randrange(len(inp.worlds))
-            if kind == 'analysenull':
+            if kind in ('analysenull', 'resolvebad'):
                 return kind, 0
             pool = [k for k, d in enumerate(inp.docs) if (kind != 'parse' or not d['permissive']) and (kind not in ('analyse', 'generate', 'generatex', 'eqcode', 'eqcodepy') or d['kind'] in ('system', 'doc', 'invalid')) and (kind != 'generatex' or d['kind'] == 'system')]
             return kind, rng.choice(pool)
@@ -199,6 +208,13 @@ def run(chk, replay=None):
                 prefix = [random_step() for _ in range(rng.randint(0, 2))] + [('eqcodepy', i1)] + [random_step() for _ in range(rng.randint(0, 1))]
                 plan = [(s_, 0) for s_ in prefix] + [(target, 0), (target, 0), (target, 1)]
                 shared = {} if rng.random() < 0.5 else None
+            if trial % 4 == 3:
+                # an importer that has just failed (its issue list holds an error) resolves a model without imports
+                plain = [k for k, d in enumerate(inp.docs) if d['kind'] in ('doc', 'system')]
+                target = ('resolveplain', rng.choice(plain))
+                prefix = [random_step() for _ in range(rng.randint(0, 2))] + [('resolvebad', 0)] + [random_step() for _ in range(rng.randint(0, 1)) if False]
+                plan = [(s_, 0) for s_ in prefix] + [(target, 0), (target, 0), (target, 1)]
+                shared = None
             if trial % 4 == 0:
                 # the same model object analysed under two configurations and generated with one generator
                 systems = [k for k, d in enumerate(inp.docs) if d['kind'] == 'system']
